@@ -5,6 +5,7 @@ set -e
 cd "$(dirname "$0")/.."
 REPO="${VERIF_REPO:-/repo}"
 OUT="${VERIF_BIN:-/verif/bin/orbsim}"
+SIM="${VERIF_SIM:-/verif/sim}"
 export GOPROXY=off GOFLAGS= GOTOOLCHAIN=auto
 unset GOSUMDB GONOSUMDB GONOSUMCHECK GOWORK
 if [ "$REPO" = "/repo" ]; then
@@ -13,8 +14,8 @@ else
   mkdir -p /verif/.build
   W=/verif/.build/work-$(echo "$REPO" | md5sum | cut -c1-8)
   mkdir -p "$W"
-  printf 'go 1.24.0\n\nuse (\n\t/verif/sim\n\t%s\n\t%s/e2e\n\t%s/simapp\n\t%s/tool\n)\n' "$REPO" "$REPO" "$REPO" "$REPO" > "$W/go.work"
+  printf 'go 1.24.0\n\nuse (\n\t'"$SIM"'\n\t%s\n\t%s/e2e\n\t%s/simapp\n\t%s/tool\n)\n' "$REPO" "$REPO" "$REPO" "$REPO" > "$W/go.work"
   cp /verif/go.work.sum "$W/go.work.sum"
   export GOWORK="$W/go.work"
 fi
-go build -o "$OUT" /verif/sim
+go build -o "$OUT" "$SIM"
